@@ -31,7 +31,7 @@ EV_OWNER = {"add": "C03", "c.match": "C03",
             "c.answer": "C02", "c.resp": "C02", "a.lookup": "C02",
             "w.timeout": "C04", "w.locked": "C04", "w.claimed": "C04", "c.timeout": "C04", "c.precleanup": "C04",
             "c.cleanup": "C04", "a.send": "C04", "a.sent": "C04", "a.dropped": "C04", "a.resp": "C04", "tick": "C04",
-            "end": "C04", "reset": "C04", "metrics": "C19", "m.locked": "C20"}
+            "end": "C04", "reset": "C04", "metrics": "C19", "m.locked": "C20", "debug": "C04"}
 
 
 def q(xs):
@@ -48,7 +48,8 @@ def cfg_text(P, C, A, strict, noties, loads, pnat, cnat, fp, unk, mode, props=()
          "  D1Fixed = %s" % ("TRUE" if d1 else "FALSE"), "  D2Fixed = %s" % ("TRUE" if d2 else "FALSE"),
          "  PNatSet = {%s}" % q(pnat), "  CNatSet = {%s}" % q(cnat), "  FpSet = {%s}" % q(fp),
          "  UnknownTargets = %s" % ("TRUE" if unk else "FALSE"), "  Bridges = {%s}" % q(bridges),
-         "  DupSids = %s" % ("TRUE" if dup else "FALSE"), "  None = None"]
+         "  DupSids = %s" % ("TRUE" if dup else "FALSE"),
+         "  MaxDebug = %d" % (1000000 if mode.startswith("trace") else (2 if mode == "gen" else 0)), "  None = None"]
     if mode == "mc":
         t += ["SPECIFICATION Spec", "VIEW view", "INVARIANTS " + " ".join(INVARIANTS), "PROPERTIES MatchRight " + " ".join(props)]
     elif mode == "gen":
@@ -118,6 +119,8 @@ def gen_configs():
 
 
 PTYPES = ["standalone", "webext", "badge", "iptproxy", "mystery"]
+EXTREME_LOADS = [-9223372036854775808, -5000000000000000000, -4611686018427387905, -8, -5, 0, 3, 8, 15, 16, 23, 24,
+                 2147483647, 2147483648, 4611686018427387904, 5000000000000000000, 9223372036854775807]
 
 
 def to_scenario(sid, steps, rng, mode="replay", fresh=False):
@@ -132,8 +135,19 @@ def to_scenario(sid, steps, rng, mode="replay", fresh=False):
                 addr[it[1]] = "192.0.2.%d:%d" % (rng.randint(1, 6), rng.randint(1024, 65000))
                 ptype[it[1]] = rng.choice(PTYPES)
     norelay = {p: True for p in addr if rng.random() < 0.25}
-    return {"id": sid, "mode": mode, "steps": steps, "via": via, "addr": addr, "ptype": ptype, "fresh": fresh,
-            "norelayext": norelay, "rollover": rng.random() < 0.04}
+    sc = {"id": sid, "mode": mode, "steps": steps, "via": via, "addr": addr, "ptype": ptype, "fresh": fresh,
+          "norelayext": norelay, "rollover": rng.random() < 0.04}
+    # session ids that differ only in padding / case / white space (all of them distinct ids)
+    sc["similarsids"] = rng.random() < 0.4
+    # extreme self-reported counts: an order-preserving concretisation of the step's numbers
+    if rng.random() < 0.3:
+        loads = sorted(set(it[3] for st in steps for it in (st[1] if st[0] == "Wave" else [st]) if it[0] == "ProxyRegister"))
+        if loads:
+            pool = EXTREME_LOADS
+            idx = sorted(rng.sample(range(len(pool)), min(len(loads), len(pool))))
+            conc = {l: pool[idx[min(n, len(idx) - 1)]] for n, l in enumerate(loads)}
+            sc["wireload"] = {it[1]: str(conc[it[3]]) for st in steps for it in (st[1] if st[0] == "Wave" else [st]) if it[0] == "ProxyRegister"}
+    return sc
 
 
 def generate_replays(chk, counts, seed):
@@ -175,7 +189,7 @@ def generate_replays(chk, counts, seed):
     return scen
 
 
-def generate_herds(n, seed, first_id):
+def generate_herds(n, seed, first_id, debug_storm=False):
     """Un-gated same-instant herds: waves of requests released on tick boundaries,
     including exactly the instants at which proxy and client timeouts expire."""
     rng = random.Random(seed * 104729 + 3)
@@ -200,6 +214,8 @@ def generate_herds(n, seed, first_id):
                 for _ in range(rng.randint(0, k)):
                     an += 1
                     wave.append(["AnswerLookup", "a%d" % an, rng.choice(registered + ["unknownSid"])])
+            for _ in range(rng.choice([4, 6, 8]) if debug_storm else rng.choice([0, 0, 1, 2])):
+                wave.append(["DebugPoll"])
             rng.shuffle(wave)
             if wave:
                 steps.append(["Wave", wave])
@@ -281,9 +297,11 @@ def run_rig(chk, scenarios, race=False, shards=None, tag="rig", watchdog=None, f
             CROSS.append(outp.replace("out-", "in-"))
             continue
         elif r.timed_out or r.rc != 0:
-            m = re.search(r"^panic: (.*)$", r.out, re.M)
-            if m and re.search(r"^main\.\(\*(BrokerContext|IPC)\)|^main\.(proxyPolls|clientOffers|proxyAnswers|ampClientOffers)|container/heap", r.out, re.M) \
-                    and "rig_verif_test.go" not in r.out.split("goroutine", 2)[1 if "goroutine" in r.out else 0][:2000]:
+            m = re.search(r"^(?:panic|fatal error): (.*)$", r.out, re.M)
+            first_stack = r.out.split("\n\n", 2)[1] if m and r.out.count("\n\n") >= 1 else ""
+            if m and re.search(r"/broker\.\(\*(BrokerContext|IPC|Metrics|roundedCounter|SnowflakeHeap)\)|/broker\.(proxyPolls|clientOffers|proxyAnswers|ampClientOffers|debugHandler|SnowflakeHeap)|container/heap", r.out) \
+                    and "rig_verif_test.go" not in first_stack.split("created by")[0][:1500].replace("vRig", "") \
+                    and "synctest" not in m.group(1):
                 # a goroutine of the broker itself panicked: in production this terminates the broker
                 CRASHES.append((m.group(1), r.out[-2500:], outp.replace("out-", "in-")))
             elif not (race and "WARNING: DATA RACE" in r.out):
@@ -366,6 +384,17 @@ def validate(chk, by_sc, locked=False, max_rounds=12, bridges=None):
     findings (scenario id, kind, detail) where kind is 'reject:<event>' or
     'inv:<Invariant>'.  Scenarios that fail are removed and the rest re-checked."""
     if bridges is None:
+        # an event that names a session id, offer or answer nobody sent cannot be a behaviour of the model
+        pre = []
+        for sid in sorted(by_sc):
+            for e in by_sc[sid]:
+                if any(isinstance(e.get(k), str) and e[k].startswith("?") for k in ("p", "c", "a", "root", "client", "sid")):
+                    pre.append((sid, "reject:" + e["ev"], e))
+                    break
+        if pre:
+            by_sc = {k: v for k, v in by_sc.items() if k not in set(x[0] for x in pre)}
+            f, a = validate(chk, by_sc, locked=locked, max_rounds=max_rounds)
+            return pre + f, a
         # one TLC run per bridge-list configuration and per group of shards (shards are independent
         # executions, each starting with a new BrokerContext), several JVMs in parallel
         cfgs = {}
@@ -476,8 +505,7 @@ def pipeline(chk, owner, tier, seed, counts=None, herds=None, do_mc=True, mc_onl
                 chk.violation("C04/" + sig, "the broker made no progress for 40 s of real time under the fake clock: " + what, {"scenario": sc, "stacks": STUCK[0][1][:8000]})
                 return
             raise vlib.Inconclusive("a stuck scenario (%s) did not reproduce in isolation" % sig)
-        chk.note("the broker got stuck during replay (reported by C04): %s; continuing with the scenarios that completed" % sig)
-        by_sc = {k: v for k, v in by_sc.items() if any(e["ev"] == "end" for e in v)}
+        chk.note("the broker got stuck during replay (reported by C04): %s; continuing with what was recorded" % sig)
     if CRASHES:
         msg, tail, inp = CRASHES[0]
         if owner == "C04":
@@ -485,14 +513,17 @@ def pipeline(chk, owner, tier, seed, counts=None, herds=None, do_mc=True, mc_onl
                           "a goroutine of the broker panicked (the process would terminate): %s" % msg,
                           {"shard": vlib.read_ndjson(inp) if os.path.exists(inp) else None, "output": tail})
             return
-        chk.note("the broker crashed during replay (reported by C04): %s; continuing with the scenarios that completed" % msg)
-        by_sc = {k: v for k, v in by_sc.items() if any(e["ev"] == "end" for e in v)}
+        chk.note("the broker crashed during replay (reported by C04): %s; continuing with what was recorded" % msg)
     # hangs and divergences are observed directly
     ok_sc = {}
     diverged = 0
     for sid, evs in sorted(by_sc.items()):
         end = [e for e in evs if e["ev"] == "end"]
         if not end:
+            if CRASHES or STUCK:
+                if not by_id[sid].get("novalidate"):
+                    ok_sc[sid] = [e for e in evs if e["ev"] != "stuck"]   # the recorded prefix of the scenario that killed the process
+                continue
             raise vlib.Inconclusive("scenario %s has no end event" % sid)
         if end[0].get("diverged"):
             diverged += 1
@@ -501,6 +532,9 @@ def pipeline(chk, owner, tier, seed, counts=None, herds=None, do_mc=True, mc_onl
                 chk.violation("C04/" + hang_signature(evs, end[0]["pending"]) + ("/repolled-sid" if by_id[sid].get("novalidate") else ""),
                               "requests %s never returned (fake clock advanced 25 s past the last step)" % end[0]["pending"],
                               {"scenario": by_id[sid], "events": evs})
+            if not by_id[sid].get("novalidate"):
+                # what happened before the hang is still judged (C02 / C03 invariants on the recorded prefix)
+                ok_sc[sid] = [e for e in evs if e["ev"] not in ("end", "metrics")]
             continue
         if by_id[sid].get("novalidate"):
             e = end[0]
